@@ -52,11 +52,13 @@ class C02(Check):
         import cirq
         repoenv.assert_working_tree(cirq)
         from engines import qgen, qdrive, qref, scripted_prng  # noqa: F401
+        qdrive.install_deterministic_state_hash()
         self.cirq = cirq
         self.qgen, self.qdrive = qgen, qdrive
 
     def run_one(self, tape, ctx: Ctx) -> None:
         cirq = self.cirq
+        self.qdrive.reset_state_hash_counter()
         qgen, qdrive = self.qgen, self.qdrive
         ctx.workload = "born-rule"
         if tape.chance(1, 12, "sweep-from-state?"):
